@@ -144,6 +144,11 @@ def check(chk):
     from . import c02 as _c02
     from .c01 import _Relabel as _RL
     _c02._concat_align(_RL(chk, "MIRROR.state.concat", "LAYOUT.concat"))
+    # label-based products only mean what they say when both operands carry the labels of the SAME space: the rotated
+    # loadings go back pca -> whitener (shared with C04); in the other order the products pair PC labels with feature labels
+    # by coincidence of their values and the result depends on how the features happen to be ordered
+    from . import c04 as _c04
+    _c04._stored(_RL(chk, "SPACE.stored", "LAYOUT.stage_order"))
     pm = chk.pm
     concrete = pm.concrete_models() + pm.exported_classes("preprocessing")
     cfg_cache: dict = {}
